@@ -43,9 +43,11 @@ def grin_to_coq(i):
 def hev_to_val(e):
     t = e[0]
     if t == 'up':
-        gr = [] if e[2] is None else [[list(e[2][0]), e[2][1], 1 if e[2][2] else 0]]
-        ll = [] if e[3] is None else [[list(p) for p in e[3]]]
-        return [0, list(e[1]), gr, ll]
+        # the implementation gets the two capability sets; the model the negotiated result
+        lgr, rgr, lll, rll = e[4] if len(e) > 4 else default_caps(e[2], e[3])
+        g = lambda x: [] if x is None else [[list(x[0]), x[1], 1 if x[2] else 0]]
+        l = lambda x: [] if x is None else [[list(p) for p in x]]
+        return [0, list(e[1]), g(lgr), g(rgr), l(lll), l(rll)]
     if t == 'ann': return [1, e[1], e[2], 1 if e[3] else 0, 1 if e[4] else 0]
     if t == 'eor': return [2, e[1]]
     if t == 'down': return [3, e[1]]
@@ -70,11 +72,71 @@ def hev_to_coq(e):
     if t == 'force': return 'HForceDown'
     return '(HSetAdminDown %s)' % cbool(e[1])
 
+# ------------------------------------------------------------- capabilities behind a negotiated result
+def default_caps(gr, ll):
+    return (gr, gr, ll, ll)
+
+def derive_caps(rng, gr, ll):
+    """local/remote GR and LLGR capabilities whose negotiation (RFC 4724 / 9494: family intersection in
+    local order, restart time and stale times from the peer, N bit only if both set it) is (gr, ll)."""
+    if gr is None:
+        k = rng.randint(0, 3)
+        a, b = rng.sample(FAMS, 2)
+        lgr, rgr = [(None, None), (((a,), RT, True), None), (None, ((a,), RT, True)),
+                    (((a,), RT, True), ((b,), RT, True))][k]
+    else:
+        G, rt, nbit = gr
+        extra = [f for f in FAMS if f not in G]
+        rng.shuffle(extra)
+        el = extra[:rng.randint(0, len(extra))]
+        er = [f for f in extra if f not in el][:rng.randint(0, 2)]
+        lf = list(G)
+        for f in el:
+            lf.insert(rng.randint(0, len(lf)), f)
+        # keep G's relative order in the local list: insert extras anywhere
+        rf = list(G) + er
+        rng.shuffle(rf)
+        lb, rb = (True, True) if nbit else rng.choice([(False, False), (True, False), (False, True)])
+        lgr, rgr = (tuple(lf), rng.choice([rt, 30, 300]), lb), (tuple(rf), rt, rb)
+    if ll is None:
+        k = rng.randint(0, 3)
+        a, b = rng.sample(FAMS, 2)
+        lll, rll = [(None, None), (((a, LT),), None), (None, ((a, LT),)), (((a, LT),), ((b, LT),))][k]
+    else:
+        fl = [f for f, _ in ll]
+        extra = [f for f in FAMS if f not in fl]
+        rng.shuffle(extra)
+        el = extra[:rng.randint(0, len(extra))]
+        er = [f for f in extra if f not in el][:rng.randint(0, 2)]
+        ltimes, rtimes = {}, {}
+        for f, t in ll:
+            if rng.random() < 0.3:
+                ltimes[f], rtimes[f] = t, 0          # the peer sends 0: our local time is used
+            else:
+                ltimes[f], rtimes[f] = rng.choice([t, 60]), t
+        lo = [(f, ltimes[f]) for f in fl]
+        for f in el:
+            lo.insert(rng.randint(0, len(lo)), (f, LT))
+        ro = [(f, rtimes[f]) for f in fl] + [(f, LT) for f in er]
+        rng.shuffle(ro)
+        lll, rll = tuple(lo), tuple(ro)
+    return (lgr, rgr, lll, rll)
+
 # ------------------------------------------------------------- known classes
-# All findings C10-1..C10-6 are repaired; no input class is excluded any more.
+# Findings C10-1..C10-6 are repaired.  One class is left (mirrors Spec/GrSpec.v Known_C10_7; the
+# check compares the two on every generated history):
+#   C10-7  a session whose negotiated GR or LLGR families are not all session families
+def wf_event(e):
+    if e[0] != 'up':
+        return True
+    fams = set(e[1])
+    grf = set(e[2][0]) if e[2] else set()
+    llf = set(f for f, _ in e[3]) if e[3] else set()
+    return grf <= fams and llf <= fams
+
 def known_classes(evs):
     """set of open finding ids whose input class this history belongs to"""
-    return set()
+    return set() if all(wf_event(e) for e in evs) else {'C10-7'}
 
 class Prop:
     pid = 'C10'
@@ -146,21 +208,23 @@ class Prop:
             if up is None:
                 if x < 0.55:
                     fams = rng.sample(F, rng.choice([1, 2, 2, 3]))
-                    if mode == 'nogr' and rng.random() < 0.5:
+                    if (mode == 'nogr' and rng.random() < 0.5) or rng.random() < 0.2:
                         gr, ll = None, None
                     else:
                         grf = [f for f in fams if rng.random() < 0.8] or [fams[0]]
+                        if mode == 'offfam':
+                            grf += [f for f in F if f not in fams and rng.random() < 0.6]
                         nbit = rng.random() < 0.5
                         gr = (tuple(grf), RT, nbit)
                         llm = rng.random()
                         if mode == 'clean':
                             ll = tuple((f, LT) for f in grf) if llm < 0.4 else None
                         else:
-                            lf = [f for f in fams if rng.random() < 0.6]
+                            lf = [f for f in (F if mode == 'offfam' else fams) if rng.random() < 0.6]
                             ll = tuple((f, LT) for f in lf) if lf and llm < 0.7 else None
                             if mode != 'clean' and rng.random() < 0.15:
                                 gr = None
-                    evs.append(('up', tuple(fams), gr, ll)); up = evs[-1]
+                    evs.append(('up', tuple(fams), gr, ll, derive_caps(rng, gr, ll))); up = evs[-1]
                 elif x < 0.70:
                     evs.append(('rtimer',))
                 elif x < 0.85:
@@ -199,7 +263,7 @@ class Prop:
         for _ in range(300 if tier == 'quick' else 5000):
             cases.append(dict(kind='gr', ins=[rng.choice(al) for _ in range(rng.randint(4, 14))]))
         nh = 1200 if tier == 'quick' else 12000
-        modes = ['clean'] * 6 + ['nogr', 'any', 'any', 'fail', 'force', 'comm', 'admin', 'mixed']
+        modes = ['clean'] * 6 + ['nogr', 'any', 'any', 'fail', 'force', 'comm', 'admin', 'mixed', 'offfam']
         for _ in range(nh):
             cases.append(dict(kind='h', evs=self.rand_history(rng, rng.choice(modes))))
         return cases
@@ -220,8 +284,33 @@ class Prop:
         return out, ''
 
     def run_model(self, cases, tier):
-        pre = 'From RB Require Import Base.Val Model.Deferral Model.Gr.\nOpen Scope N_scope.'
-        return coqrun.eval_terms('C10m', pre, [self.case_to_coq(c) for c in cases], shards=8)
+        # every glue history is evaluated together with the Coq class predicate Known_C10_7, which is
+        # compared here with its hand-written python mirror known_classes()
+        pre = 'From RB Require Import Base.Val Model.Deferral Model.Gr Spec.GrSpec.\nOpen Scope N_scope.'
+        terms = []
+        for c in cases:
+            t = self.case_to_coq(c)
+            if c['kind'] == 'h':
+                evs = clist([hev_to_coq(e) for e in c['evs']])
+                t = 'VL [%s; VB (Known_C10_7 %s)]' % (t, evs)
+            terms.append(t)
+        res, err = coqrun.eval_terms('C10m', pre, terms, shards=8)
+        if res is None:
+            return None, err
+        out = []
+        self.known_compared = 0
+        for k, (c, r) in enumerate(zip(cases, res)):
+            if c['kind'] == 'h':
+                obs, flag = r
+                py = 'C10-7' in known_classes(c['evs'])
+                if bool(flag) != py:
+                    return None, 'known-class predicates disagree on case %d: Coq Known_C10_7=%s, python=%s, events=%s' % (
+                        k, flag, py, c['evs'])
+                self.known_compared += 1
+                out.append(obs)
+            else:
+                out.append(r)
+        return out, ''
 
     def canon(self, case, obs):
         if obs == [-1]:
